@@ -6,7 +6,9 @@
 //   jsonrun                    command loop, one command per line on stdin, one result line each:
 //     DESCRIBE                 -> JSON list of every catalogued model's Description()
 //     RUN <split> <base64>     -> R exit=<status> docs=<n> raw=<base64 stdout> panic=<base64> doc=<canonical JSON>
-//                                 split 0/1 = re-exec self as child; split 2 = the real ow-single binary ($JSONRUN_OWSINGLE)
+//                                 split 0/1 = re-exec self as child; split 2 = the real ow-single binary ($JSONRUN_OWSINGLE);
+//                                 split 3/4 = child2 (split 0/1): RunSingleModelJSON called TWICE on the same stdin
+//                                 (whatever the first call's decoder left unread is the second call's request)
 //                                 docs = number of JSON documents on stdout (strict decode until EOF), -1 = not valid JSON
 //     DIRECT <dims 0|1> <Model> P n hex.. I k len hex..
 //                              -> OK O nout len hex.. S n hex..   direct one-cell run through the model API
@@ -240,6 +242,13 @@ func runRequest(t *toks, w *bufio.Writer) {
 	var cmd *exec.Cmd
 	if split == "2" {
 		cmd = exec.Command(os.Getenv("JSONRUN_OWSINGLE"))
+	} else if split == "3" || split == "4" {
+		// the same reader handed to RunSingleModelJSON twice (two calls on one stream)
+		self, err := os.Executable()
+		if err != nil {
+			panic(err)
+		}
+		cmd = exec.Command(self, "child2", map[string]string{"3": "0", "4": "1"}[split])
 	} else {
 		self, err := os.Executable()
 		if err != nil {
@@ -485,6 +494,11 @@ func jsv(t *toks, w *bufio.Writer) {
 }
 
 func main() {
+	if len(os.Args) >= 3 && os.Args[1] == "child2" {
+		sim.RunSingleModelJSON(os.Stdin, os.Stdout, os.Args[2] == "1")
+		sim.RunSingleModelJSON(os.Stdin, os.Stdout, os.Args[2] == "1")
+		return
+	}
 	if len(os.Args) >= 3 && os.Args[1] == "child" {
 		sim.RunSingleModelJSON(os.Stdin, os.Stdout, os.Args[2] == "1")
 		return
